@@ -57,7 +57,19 @@ func propWalletHTLC(t *rapid.T) {
 	if err != nil {
 		t.Skipf("send failed: %v", err)
 	}
-	tok, err := cashu.NewTokenV4(append(cashu.Proofs{}, proofs...), url, cashu.Sat, rapid.Bool().Draw(t, "dleq"))
+	// the mint may rotate its keyset between locking and redeeming: the receiving wallet (loaded before) discovers the
+	// rotation inside the receive. (Tokens of a rotated-out keyset are built without DLEQ: Receive checks DLEQ proofs
+	// against the active keyset only - an observation outside this property.)
+	withDLEQ := rapid.Bool().Draw(t, "dleq")
+	rotated := rapid.IntRange(0, 2).Draw(t, "rotate_before_receive") == 0
+	if rotated {
+		if _, err := e.Mints[0].Mint.RotateKeyset(fee); err != nil {
+			t.Fatalf("rotate: %v", err)
+		}
+		e.Mints[0].RefreshKeysets()
+		withDLEQ = false
+	}
+	tok, err := cashu.NewTokenV4(append(cashu.Proofs{}, proofs...), url, cashu.Sat, withDLEQ)
 	if err != nil {
 		t.Fatalf("token: %v", err)
 	}
@@ -65,13 +77,19 @@ func propWalletHTLC(t *rapid.T) {
 	cls := fmt.Sprintf("wallet_htlc|signer=%v|sig_all=%v|fee=%d", withSigner, sigAll, fee)
 	rec.NonTrivial(cls + fmt.Sprint(amount))
 	rec.Class(cls)
+	if rotated {
+		rec.Class("wallet_receive_discovers_rotation")
+	}
 	redeemable := proofs.Amount() > (uint64(len(proofs))*uint64(fee)+999)/1000
+	// (after a rotation the redemption itself must be the receiver's first contact with the mint: no probes first)
 	dec, _ := cashu.DecodeToken(str)
 	e.Cur = "bob"
-	if got, err := bob.W.ReceiveHTLC(dec, "00"+preimage); err == nil {
-		violate(t, "wallet|htlc_redeemed_with_wrong_preimage", "bob received %d with a wrong preimage", got)
+	if !rotated {
+		if got, err := bob.W.ReceiveHTLC(dec, "00"+preimage); err == nil {
+			violate(t, "wallet|htlc_redeemed_with_wrong_preimage", "bob received %d with a wrong preimage", got)
+		}
 	}
-	if withSigner {
+	if withSigner && !rotated {
 		dec, _ = cashu.DecodeToken(str)
 		e.Cur = "carol"
 		if got, err := carol.W.ReceiveHTLC(dec, preimage); err == nil {
